@@ -215,6 +215,19 @@ def _wcol_job(recs):
                     n = sum(1 for d in planted if d[0])
                     if not (kind == 'val' and p == n):
                         bad.append((f, str(n), repo_show(kind, p, None)))
+            # a later write into a cell of the area (also one that was never stored) must be seen through the reference
+            if rec['shape'] == 'area' and not bad:
+                last = den[-1]
+                idx = [k for k, (tag, _) in enumerate(fs) if tag[0] == 'at' and tag[1] == len(den) - 1]
+                if idx:
+                    ex = repo.fresh_executor(klass, [Cell(last[0] - 1, last[1] - 1, last[2] - 1, 424242)])
+                    s0, c0, r0, ftxt = formulas[a + idx[0]]
+                    try:
+                        got = ex.get_cell(Cell(s0, c0, r0)).value
+                    except Exception as exn:  # noqa
+                        got = f'raises {type(exn).__name__}'
+                    if got != 424242:
+                        bad.append((ftxt, f'424242 after set_cells wrote it into {last}', repr(got)))
             out.append(bad)
         return out
     except Exception as e:
@@ -224,7 +237,7 @@ def _wcol_job(recs):
 
 def gen(run):
     th = 'FALSE' if run.quick else 'TRUE'
-    for kind, job, size in (('NEAR', _near_job, 40), ('WCOL', _wcol_job, 60)):
+    for kind, job, size in (('NEAR', _near_job, 40), ('WCOL', _wcol_job, 60), ('BEYOND', _wcol_job, 60)):
         r = run.tlc('Gen_C02', ['INIT Init', 'NEXT Next', f'CONSTANT Kind = "{kind}"', f'CONSTANT Thorough = {th}', 'INVARIANT RoundTrip', 'INVARIANT AreaCardinality'],
                     workers=6, timeout=3000, tag='Gen_C02_' + kind, heap='8g')
         recs = r.records
